@@ -15,6 +15,7 @@ structure D where
   dedup : Bool := true
   rf : Option RewardFacts := none   -- the `reward` line of the block being described
   votesLast : Bool := true
+  flagCheck : Bool := true
 
 def parseSigners (s : String) : Option (Option (List Nat)) :=
   if s == "!" then some none
@@ -83,11 +84,25 @@ def insertSorted (x : Nat) : List Nat → List Nat
   | [] => [x]
   | y :: ys => if x ≤ y then x :: y :: ys else y :: insertSorted x ys
 
+/-- what stands behind the names in the hashed literals (extracted from tx.go / tx_signing.go on every run):
+    `hashData` = getHashData(tx) = tx.data.Data, or for a decodable box with sub-txs the list of the sub-txs' hashes;
+    `firstSignData` = tx.data.Sigs; the accessors return the txdata fields of the same name. -/
+def hashDataExpected : List (List String) :=
+  [ ["accessor", "ChainID", "tx.data.ChainID"], ["accessor", "Type", "tx.data.Type"], ["accessor", "Version", "tx.data.Version"],
+    ["append", "calcBoxSubTxHashSet", "subTx.Hash()"],
+    ["cond", "getHashData", "err!=nil"], ["cond", "getHashData", "len(box.SubTxList)>0"], ["cond", "getHashData", "tx.Type()==params.BoxTx"],
+    ["local", "DefaultSigner", "hashData", "getHashData(tx)"], ["local", "GasPayerSigner", "firstSignData", "tx.data.Sigs"],
+    ["local", "ReimbursementTxSigner", "hashData", "getHashData(tx)"], ["local", "Transaction", "hashData", "getHashData(tx)"],
+    ["return", "calcBoxSubTxHashSet", "subTxHashSet"], ["return", "getHashData", "calcBoxSubTxHashSet(box.SubTxList)"],
+    ["return", "getHashData", "tx.data.Data"] ]
+
 def step (d : D) (w : List String) : D × String :=
   match w with
   | ["hashcover", fn, field, bit] =>
     if LemoModel.HashFacts.covers fn field == (bit == "1") && LemoModel.HashFacts.fields.contains field
     then (d, "ok") else (d, "table-mismatch")
+  | ["hashdata", "count", n] => (d, if n == "15" then "ok" else "table-mismatch")
+  | "hashdata" :: rest => (d, if hashDataExpected.contains rest then "ok" else "table-mismatch")
   | ["hashfns", n] => (d, if n == toString LemoModel.HashFacts.expected.length then "ok" else "table-mismatch")
   | ["reset"] => ({ d with accts := fun _ => {}, univ := [], txs := [], rf := none }, "ok")
   | ["params", vr, dr, md, td, idur, pool, prec] =>
@@ -100,6 +115,7 @@ def step (d : D) (w : List String) : D × String :=
     ({ d with univ := ls.filterMap (·.toNat?) }, "ok")
   | ["mode", "legacy-signers"] => ({ d with dedup := false }, "ok")
   | ["mode", "votes-before-reward"] => ({ d with votesLast := false }, "ok")
+  | ["mode", "legacy-flag"] => ({ d with flagCheck := false }, "ok")
   | ["acct", l, bal, votes, vf, ic, dep, inc, isDep] =>
     match l.toNat?, parseInt? bal, parseInt? votes, vf.toNat?, ic.toNat?, inc.toNat?, isDep.toNat? with
     | some l, some bal, some votes, some vf, some ic, some inc, some isDep =>
@@ -130,7 +146,7 @@ def step (d : D) (w : List String) : D × String :=
     | some t, b :: bs => ({ d with txs := { b with subs := b.subs ++ [t] } :: bs }, "ok")
     | _, _ => (d, "bad-op")
   | ["end"] =>
-    let c : Ctx := { p := d.p, miner := d.miner, height := d.height, dedup := d.dedup, rf := d.rf.getD {}, votesLast := d.votesLast }
+    let c : Ctx := { p := d.p, miner := d.miner, height := d.height, dedup := d.dedup, rf := d.rf.getD {}, votesLast := d.votesLast, flagCheck := d.flagCheck }
     -- the reward facts must be given exactly at the heights the GENERATED IsRewardBlock names
     if isRewardBlock c != d.rf.isSome then (d, "reward-schedule-mismatch") else
     let s0 : St := { accts := d.accts }
